@@ -57,10 +57,10 @@ theorem C13_no_goroutine_left (shape : Shape) (out : MD) (ss : List SOp) (fin : 
     Ev.stuck ∉ (Wrap.run shape out ss fin cs reuse).client ∧
     SEv.left ∉ (Wrap.run shape out ss fin cs reuse).server := by
   have hopen : Wrap.open shape = .ok := by cases shape <;> decide
-  have hs : sync false false false (.running ss) (clientOps shape cs) = true := by
+  have hs : sync shape.statusRead false false (.running ss) (clientOps shape cs) = true := by
     simp only [WFScripts, Bool.and_eq_true] at h
     exact h.2
-  have hc := go_complete Cfg.current fin reuse false false false (.running ss) (clientOps shape cs) {} hs
+  have hc := go_complete Cfg.current fin reuse shape.statusRead false false (.running ss) (clientOps shape cs) {} hs
     (by intro hh; cases hh)
   have hc' : (Wrap.run shape out ss fin cs reuse).complete = true := by
     unfold Wrap.run Wrap.runCfg
